@@ -54,3 +54,9 @@ impl<B> From<Reset> for frame::Frame<B> {
         frame::Frame::Reset(src)
     }
 }
+
+#[cfg(feature = "verif")]
+#[allow(missing_docs, dead_code, unused_imports)]
+pub(crate) mod verif_h {
+    include!(concat!(env!("H2_VERIF_DIR"), "/harness/frame/reset.rs"));
+}
